@@ -85,8 +85,14 @@ def oracle_c08(sim) -> None:
         if starved and not disrupted and not limits and op.outcome[0] == "perr":
             ended_early = op.ret_t < deadline - 1e-6
             if ended_early and W < limit and not sim.hub.fault_counts.get("hgi80_drop"):
-                ctx.violate("C08", "too_few_tx", "gave_up", f"op{op.id} {op.frame} max_retries={op.d['max_retries']} "
-                            f"gave up at {op.ret_t - T0:.4f} (deadline {deadline - T0:.4f}) after {W} < {limit} tx")
+                # the sender may have used its whole budget at the hand-off to the transport while the frames were still waiting
+                # behind the inter-write gap / duty-cycle regulator (KF1's mechanism): a different thing from giving up early
+                n_handed = sum(1 for (_, hs) in op.handoffs if hs < op.ret_seq)
+                n_written = sum(1 for s_ in op.write_seq if s_ < op.ret_seq)
+                detail = "delayed_write" if n_handed >= limit > n_written else "gave_up"
+                ctx.violate("C08", "too_few_tx", detail, f"op{op.id} {op.frame} max_retries={op.d['max_retries']} "
+                            f"gave up at {op.ret_t - T0:.4f} (deadline {deadline - T0:.4f}) after {W} < {limit} tx "
+                            f"({n_handed} handed to the transport, {n_written} on the wire before the verdict)")
             if not ended_early and W < limit and answered_never:
                 last_gap = 4.0 if not gaps else min(2 * gaps[-1], 4.0)
                 room = deadline - hts[-1]
@@ -101,6 +107,8 @@ def oracle_c08(sim) -> None:
         return
     firsts = sorted(((o.write_seq[0], o) for o in ops if o.writes), key=lambda x: x[0])
     for seq, op in firsts:
+        if op.ret_seq is not None and seq > op.ret_seq:
+            continue  # its first write came after its own verdict: a delayed write (reported as such), not a second command in flight
         for other in ops:
             if other is op or not other.writes or other.ret_seq is None:
                 continue
